@@ -1,1 +1,34 @@
 // Kani contract harnesses for /repo/arrow-select/src/window.rs (child module: sees private items via super::)
+use super::*;
+#[path = "/verif/kani/support/spec.rs"]
+mod spec;
+use spec::*;
+use arrow_array::types::Int32Type;
+use arrow_array::PrimitiveArray;
+use arrow_buffer::{Buffer, ScalarBuffer};
+
+// Contract (C03, single attempt): shift(array, k) on an Int32 array of 3 rows (no nulls), k = +1:
+// output row i == input row i-1 for i >= 1 and null for i == 0. shift has no typed core: it is
+// `&dyn Array -> ArrayRef` built from new_null_array + slice + concat (all dyn / ArrayData level).
+// @unit name=shift_i32_n3_plus1 props=C03 kind=bounded bound=rows=3_offset=+1 fns=shift tier=thorough timeout=900 mem=10 note=not_confirmed_at_checkpoint
+#[kani::proof]
+#[kani::unwind(8)]
+#[kani::stub(alloc::fmt::format, stub_format)]
+fn shift_i32_n3_plus1() {
+    let store: [i32; 3] = kani::any();
+    let a = unsafe { PrimitiveArray::<Int32Type>::new_unchecked(ScalarBuffer::new(Buffer::from_slice_ref(&store), 0, 3), None) };
+    let r = shift(&a, 1);
+    match &r {
+        Ok(out) => {
+            let out = out.as_any().downcast_ref::<PrimitiveArray<Int32Type>>().unwrap();
+            assert!(out.len() == 3);
+            assert!(out.is_null(0));
+            assert!(out.is_valid(1) && out.value(1) == store[0]);
+            assert!(out.is_valid(2) && out.value(2) == store[1]);
+        }
+        Err(_) => assert!(false),
+    }
+    kani::cover!(true);
+    std::mem::forget(r);
+    std::mem::forget(a);
+}
